@@ -146,7 +146,7 @@ class Adapter:
         return f"pt {vid(node_of_point(parts, pt))} {flist(pt)}"
     def gen_params(self, rnd, T): ...
     def construct(self, params, box, pcls): ...
-    def init_line(self, params, kind, K, box, calls): ...
+    def init_line(self, params, kind, K, box, calls, algo=None): ...
     def dump(self, algo, delta): ...
     def pulled(self, algo): ...
 
@@ -167,7 +167,7 @@ class HOOAd(Adapter):
         from PyXAB.algos.HOO import T_HOO
         return _ctor(p, T_HOO, nu=p["nu"], rho=p["rho"], rounds=p["rounds"], domain=box, partition=pcls)
 
-    def init_line(self, p, kind, K, box, calls):
+    def init_line(self, p, kind, K, box, calls, algo=None):
         return f"HOO.init {kind_str(kind, K)} {box_str(box)} {fbits(p['nu'])} {fbits(p['rho'])} {p['rounds']} {draws_str(calls)}", "ok"
 
     def dump(self, a, delta):
@@ -249,7 +249,7 @@ class SOOAd(Adapter):
         from PyXAB.algos.SOO import SOO
         return _ctor(p, SOO, n=p["n"], h_max=p["h_max"], domain=box, partition=pcls)
 
-    def init_line(self, p, kind, K, box, calls):
+    def init_line(self, p, kind, K, box, calls, algo=None):
         return f"SOO.init {kind_str(kind, K)} {box_str(box)} {p['h_max']}", "ok"
 
     def dump(self, a, delta):
@@ -925,8 +925,9 @@ def gen_algo_case(seed, idx, algo=None, force=None, monitors_on=True, T=None, ho
         ctx["parts"] = parts
         try:
             line, exp = ad.init_line(params, kind, K, box, list(glog), a)
-        except TypeError:
-            line, exp = ad.init_line(params, kind, K, box, list(glog))
+        except Exception as e:       # the constructed object is in a shape the adapter cannot describe: the run goes on
+            line, exp = f"# init-line {type(e).__name__}", None
+            case.fail("*", "monitor-exception", f"init line: {type(e).__name__}: {e}", algo=ad.name)
         case.op(line, exp)
         case.op("A.dump", safe_dump(ad, a, delta))
         if monitors_on:
